@@ -325,7 +325,11 @@ func (c *Ctx) buildQuery(o *Obligation) string { return c.buildQueryOpt(o, false
 
 // buildQueryOpt: with lean set, the quantified statements of earlier obligations are left out
 // (dropping assumptions is sound; it helps when they send the solvers into instantiation loops).
-func (c *Ctx) buildQueryOpt(o *Obligation, lean bool) string {
+func (c *Ctx) buildQueryOpt(o *Obligation, lean bool) string { return c.buildQueryMode(o, lean, false) }
+
+// buildQueryMode: with qf set, every quantified assumption is left out (sound: assumptions are
+// only dropped); many obligations need none of them and the solvers then answer at once.
+func (c *Ctx) buildQueryMode(o *Obligation, lean, qf bool) string {
 	goal := "(and " + o.Reach.S + " (not " + o.Cond.S + "))"
 	goalSyms := symbolsOf(goal, c.declared)
 	facts := c.facts[:o.nfacts]
@@ -346,6 +350,9 @@ func (c *Ctx) buildQueryOpt(o *Obligation, lean bool) string {
 	}
 	for _, i := range keep {
 		if lean && facts[i].derived && (strings.Contains(fs[i], "(forall ") || strings.Contains(fs[i], "(exists ")) {
+			continue
+		}
+		if qf && !facts[i].always && (strings.Contains(fs[i], "(forall ") || strings.Contains(fs[i], "(exists ")) {
 			continue
 		}
 		b.WriteString("(assert ")
@@ -432,6 +439,17 @@ func (v *Verifier) solveAll(results []*FuncResult) {
 				r2 := solve(q, v.Opts.WorkDir, to, v.Opts.Solvers)
 				r2.TimeS += j.o.Res.TimeS
 				j.o.Res = r2
+			}
+			if j.o.Res.Verdict == "unknown" && !v.knownNames[j.o.Name] {
+				if qf := j.c.buildQueryMode(j.o, false, true); qf != text {
+					q2 := &Query{Name: j.o.Name + ".qf", Text: qf}
+					if r2 := solve(q2, v.Opts.WorkDir, 5, v.Opts.Solvers); r2.Verdict == "unsat" {
+						r2.TimeS += j.o.Res.TimeS
+						r2.Solver += " (without quantified assumptions)"
+						j.o.Res = r2
+						j.o.Query = qf
+					}
+				}
 			}
 			if j.o.Res.Verdict == "unknown" && !v.knownNames[j.o.Name] {
 				if lean := j.c.buildQueryOpt(j.o, true); lean != text {
